@@ -26,6 +26,15 @@ def run_explorer(prop, tier, seed, procs, triage):
             print(e)
         print(f"{len(errors)} harness errors - results are not trustworthy")
         return 2
+    extra_cov = {}
+    if prop == "C10":
+        from . import c10auto
+        v2, extra_cov, errs = c10auto.run_grid(tier, seed)
+        if errs:
+            print("HARNESS-ERROR", errs[0])
+            return 2
+        violations = list(violations) + v2
+        stats["leaves"] += extra_cov["auto_dimension_cases"]
     groups = report.group_violations(violations, prop)
     if triage:
         allg = {}
@@ -76,6 +85,7 @@ def run_explorer(prop, tier, seed, procs, triage):
     }
     if not samples:
         coverage["samples"] = stats.get("sample_histories") or coverage["samples"]
+    coverage.update(extra_cov)
     report.write_evidence(prop, tier, seed, "model_checking" if prop != "C17" else "fault_enumeration",
                           coverage, stats["wall_s"], len(new), ASSUMPTIONS)
     print(f"[{prop}] tier={tier} seed={seed} states={stats['states']} transitions={stats['transitions']} "
